@@ -300,11 +300,23 @@ impl<'l, T: Debug> OrderedLocalQueue<'l, T> {
         }
     }
 
+    /// Recount the local queue, siblings steal from it without touching `len`.
+    fn refresh_local_len(&self) -> usize {
+        let mut len = 0;
+        for entry in self.queue {
+            let worker = entry.value();
+            len += worker.capacity() - worker.spare_capacity();
+        }
+        self.len.store(len, Ordering::Release);
+        len
+    }
+
     fn push_to_global(&self, priority: c_longlong, item: T) {
         //把本地队列的一半放到全局队列
-        let count = self.local_len() / 2;
+        let count = self.refresh_local_len() / 2;
         let mut done = 0;
         while done < count {
+            let before = done;
             for entry in self.queue.iter().rev() {
                 if done >= count {
                     break;
@@ -314,10 +326,13 @@ impl<'l, T: Debug> OrderedLocalQueue<'l, T> {
                     done += 1;
                 }
             }
+            if done == before {
+                // a sibling has stolen the rest
+                break;
+            }
         }
         // refresh count
-        self.len
-            .store(self.local_len().saturating_sub(count), Ordering::Release);
+        _ = self.refresh_local_len();
         //直接放到全局队列
         self.shared.push_with_priority(priority, item);
     }
@@ -455,6 +470,8 @@ impl<'l, T: Debug> OrderedLocalQueue<'l, T> {
                 return Some(val);
             }
         }
+        // nothing left, whatever `len` said (a sibling may have stolen from us)
+        self.len.store(0, Ordering::Release);
         None
     }
 }
